@@ -195,6 +195,12 @@ def main(repo, out):
         unrec.append("io::Write::write shape")
     mw = impl_body(r"impl<'a> tracing_subscriber::fmt::writer::MakeWriter<'a> for RollingFileAppender\s*\{", "make_writer")
     mw = mw.replace("#[cfg(tracing_verif)] __verif::yield_point(1); ", "")
+    # hook H1b (optional): a second yield point between should_rollover and advance_date; when present the
+    # driver also forces schedules in which a thread is preempted between the load and the compare_exchange
+    # (strip_comments already removed the yield hooks from `src`; look at the raw text)
+    raw = " ".join(open(os.path.join(repo, "tracing-appender/src/rolling.rs")).read().split())
+    yield0 = bool(re.search(r"if let Some\(current_time\) = self\.state\.should_rollover\(now\) \{ #\[cfg\(tracing_verif\)\] __verif::yield_point\(0\); "
+                            r"(?:// [^{}]*? )?if self\.state\.advance_date\(now, current_time\) \{", raw))
     recheck = None
     old = (r"let now = self\.now\(\); if let Some\(current_time\) = self\.state\.should_rollover\(now\) \{ if self\.state\.advance_date\(now, current_time\) \{ "
            r"self\.state\.refresh_writer\(now, &mut self\.writer\.write\(\)\); \} \} RollingWriter\(self\.writer\.read\(\)\)")
@@ -212,6 +218,8 @@ def main(repo, out):
             unrec.append("is_latest_rotation body")
     else:
         unrec.append("make_writer shape")
+        # keep the correspondence meaningful although the tie is already broken
+        recheck = "if self.state.is_latest_rotation(now) { self.state.refresh_writer(" in mw
 
     G = ["(* GENERATED by translators/rolling.py from tracing-appender/src/rolling.rs.  Rewritten on every run; do not edit. *)",
          "From Coq Require Import ZArith List String.", "Import ListNotations.", "Local Open Scope string_scope.", ""]
@@ -229,6 +237,7 @@ def main(repo, out):
     G.append("Definition gen_prune_filters : list string := [%s]." % "; ".join(coq_str(x) for x in filt))
     G.append("Definition gen_refresh_order : list string := [%s]." % "; ".join(coq_str(x) for x in order))
     G.append("Definition gen_recheck : bool := %s." % ("true" if recheck else "false"))
+    G.append("Definition gen_yield0 : bool := %s." % ("true" if yield0 else "false"))
     G.append("Definition gen_unrecognised : list string := [%s]." % "; ".join(coq_str(u) for u in unrec))
     text = "\n".join(G) + "\n"
     if out:
